@@ -276,6 +276,52 @@ def check_entry(ctx):
                     f'psd_microporous({model},{geom},{lim}) on data starting with the (0, 0) point: widths {list(numpy.round(ww, 4)) if with_o.ok else with_o.brief()} / volumes '
                     f'{list(numpy.round(with_o.value["pore_volume_cumulative"], 5)) if with_o.ok else ""}; the same data without that point give widths {list(numpy.round(wo, 4)) if with_o.ok else ""} / volumes '
                     f'{list(numpy.round(without.value["pore_volume_cumulative"], 5))} (expected: identical for the positive-pressure points)', {}))
+    # a ModelIsotherm as input, stored in relative or in absolute pressure: each reported cumulative volume belongs to the reported width
+    from pygaps.modelling import get_isotherm_model
+    cN2 = ru.ads_consts(a.backend_name, 77.355)
+    for pmode, punit in (('relative', None), ('absolute', 'bar'), ('absolute', 'kPa'), ('absolute', 'Pa')):
+        m = get_isotherm_model('Langmuir')
+        fac = 1.0 if pmode == 'relative' else cN2['ps'] / ru.P_UNITS[punit]      # pressure in stored units = relative pressure x fac
+        m.params = {'K': 4000.0 / fac, 'n_m': 6.0 * ctx.scale}
+        m.pressure_range = (1e-7 * fac, 0.9 * fac)
+        m.loading_range = (0.0, 6.0 * ctx.scale)
+        m.rmse = 0.0
+        miso = pygaps.ModelIsotherm(model=m, material='c17', adsorbate='N2', temperature=77.355, pressure_mode=pmode, pressure_unit=punit, loading_basis='molar',
+                                    loading_unit='mmol', material_basis='mass', material_unit='g')
+        o = core.call(pgc.psd_microporous, miso, psd_model='HK', pore_geometry='slit', p_limits=(None, None), timeout=600)
+        ev += 1
+        if not o.ok:
+            ctx.violate(core.make_violation({'check': 'entry-raises', 'model': 'HK', 'kind': o.kind, 'input': 'ModelIsotherm'}, f'psd_microporous(HK, slit) on a Langmuir ModelIsotherm stored in {pmode} {punit}: {o.brief()}', {}))
+            continue
+        nt += 1
+        # invert each cumulative volume to its relative pressure through the model, and that pressure to its HK width through the published equation
+        vol = numpy.asarray(o.value['pore_volume_cumulative'], dtype=float)
+        wid = numpy.asarray(o.value['pore_widths'], dtype=float)
+        nload = vol * 1000.0 * cN2['dl'] / cN2['M']
+        nm, K_rel = m.params['n_m'], 4000.0
+        prel = nload / (K_rel * (nm - nload))
+        mat = dict(get_hk_model('Carbon(HK)'))
+        w_from_p = []
+        for q in prel:
+            # bisection on the published slit equation (ln p increases with width)
+            lo_, hi_ = (ads['molecular_diameter'] + mat['molecular_diameter']) * 1.0001, 60.0
+            for _ in range(80):
+                mid_ = 0.5 * (lo_ + hi_)
+                if ref_hk_slit_lnp(mid_, 77.355, ads, mat) < math.log(q):
+                    lo_ = mid_
+                else:
+                    hi_ = mid_
+            w_from_p.append(0.5 * (lo_ + hi_) - mat['molecular_diameter'])
+        w_from_p = numpy.array(w_from_p)
+        # reported widths are mid-points of successive solved widths, volumes belong to the upper point of each interval
+        okw = numpy.isfinite(w_from_p) & (prel > 0) & (prel < 0.9)
+        if okw.sum() >= 5:
+            bad = [(float(wid[i]), float(w_from_p[i - 1]) if i > 0 else None, float(w_from_p[i])) for i in range(1, len(wid))
+                   if okw[i] and okw[i - 1] and not (min(w_from_p[i - 1], w_from_p[i]) * (1 - 2e-3) <= wid[i] <= max(w_from_p[i - 1], w_from_p[i]) * (1 + 2e-3))]
+            if len(bad) > 0:
+                ctx.violate(core.make_violation({'check': 'model-isotherm-volume-vs-width', 'stored': pmode if pmode == 'relative' else 'absolute'},
+                                                f'psd_microporous(HK, slit) on a Langmuir ModelIsotherm stored in {pmode} {punit}: {len(bad)} reported widths do not lie between the HK widths '
+                                                f'of the pressures at which the model reaches the neighbouring cumulative volumes, e.g. (reported, lower, upper) = {bad[0]}', {'stored': [pmode, punit]}))
     # the same adsorbate analysed at several temperatures in one process: volumes use the liquid density at EACH temperature
     for aname, temps in (('N2', (77.355, 90.0, 70.0, 77.355)),):     # the only shipped adsorbate with HK parameters and a backend
         a2 = pygaps.Adsorbate.find(aname)
